@@ -149,6 +149,17 @@ Variants(F0, nms) ==
 
 \* ---- source 1: enumeration
 AllReachable(F) == Reach(F) = 1..Len(F)
+\* graphs on which the order of the import statements of some file is not the order in which the
+\* imported files are loaded: the second of two imports was entered before the first (it had been
+\* loaded through another file already)
+PosIn(q, x) == CHOOSE k \in 1..Len(q) : q[k] = x
+Reordered(F) ==
+  LET ord == Dfs(F).order IN
+  \E i \in Reach(F) : \E a, b \in 1..Len(ImpT(F, i)) :
+     LET P == ImpT(F, i)[a]  Q == ImpT(F, i)[b] IN
+     a < b /\ P # Q /\ P # i /\ Q # i /\ P # 0 /\ Q # 0 /\ PosIn(ord, Q) < PosIn(ord, P)
+\* (acyclic ones: on a cycle the known deviation F-C25-1 decides the outcome)
+GraphFilter(F) == IF IOEnv.VT_FILTER = "reorder" THEN Reordered(F) /\ ~Cyclic(F) ELSE TRUE
 \* ---- source 2: skeletons from a file
 FileCases == IF IOEnv.VT_CASES = "" THEN <<>> ELSE JsonDeserialize(IOEnv.VT_CASES)
 
@@ -164,7 +175,9 @@ InShard(a, b) == \E k \in 1..Len(MainChoices) : MainChoices[k] = <<a, b>> /\ ToS
 
 GenInit ==
   \E im \in Prod(ImpChoices, NU) :
+    /\ \E b \in RuleChoices[1] : InShard(im[1], b)
     /\ AllReachable(Plain(Skeleton(U, im, [i \in 1..NU |-> <<>>])))
+    /\ GraphFilter(Plain(Skeleton(U, im, [i \in 1..NU |-> <<>>])))
     /\ \E rl \in Prod(RuleChoices, NU) :
          /\ InShard(im[1], rl[1])
          /\ LET sk == Skeleton(U, im, rl) IN
